@@ -20,24 +20,24 @@ def register(R):
             s = c.ref('self')
             m = c.post.m(r_of(c.rt))
             out = [('result-is-new-dict', z3.And(is_ref(c.rt), r_of(c.rt) < 0)),
-                   ('C04+C15.child-inherits-delete', z3.And(m.has(mk_str('implicit_delete')), m.get(mk_str('implicit_delete')) == S.inh_delete(c.eng, c.pre, s))),
-                   ('C08.child-inherits-allow_new', z3.And(m.has(mk_str('implicit_allow_new')), m.get(mk_str('implicit_allow_new')) == S.inh_allow_new(c.pre, s)))]
+                   ('C04+C15+C19.child-inherits-delete', z3.And(m.has(mk_str('implicit_delete')), m.get(mk_str('implicit_delete')) == S.inh_delete(c.eng, c.pre, s))),
+                   ('C08+C19.child-inherits-allow_new', z3.And(m.has(mk_str('implicit_allow_new')), m.get(mk_str('implicit_allow_new')) == S.inh_allow_new(c.pre, s)))]
             if with_child:
                 ch = c.ref('child')
                 keep = c.pre.get('_implicit_safe', ch) == FALSE
                 out.append(('C07.never-offers-to-reset-implicit-unsafe', m.has(mk_str('implicit_safe')) == z3.Not(keep)))
-                out.append(('C07.child-inherits-safe', z3.Implies(z3.Not(keep), m.get(mk_str('implicit_safe')) == S.inh_safe(c.pre, s))))
+                out.append(('C07+C19.child-inherits-safe', z3.Implies(z3.Not(keep), m.get(mk_str('implicit_safe')) == S.inh_safe(c.pre, s))))
             else:
-                out.append(('C07.child-inherits-safe', z3.And(m.has(mk_str('implicit_safe')), m.get(mk_str('implicit_safe')) == S.inh_safe(c.pre, s))))
+                out.append(('C07+C19.child-inherits-safe', z3.And(m.has(mk_str('implicit_safe')), m.get(mk_str('implicit_safe')) == S.inh_safe(c.pre, s))))
             return out
         return ens
 
     R.add(Contract(C + 'ComposedNode._get_child_kwargs', [comp(), P.const('child', None)], name='no-child',
-                   requires=lambda c: S.valid_flags(c.pre, c.ref('self')), pure=True, props=('C04', 'C07', 'C08', 'C15'),
+                   requires=lambda c: S.valid_flags(c.pre, c.ref('self')), pure=True, props=('C04', 'C07', 'C08', 'C15', 'C19'),
                    ensures=[('inherit', gck_ens(False))], opts={'verify_only': True}))
     R.add(Contract(C + 'ComposedNode._get_child_kwargs', [comp(), P.node('child', 'ConfigNode')], name='with-child',
                    requires=lambda c: z3.And(S.valid_flags(c.pre, c.ref('self')), S.valid_flags(c.pre, c.ref('child'))), pure=True,
-                   props=('C04', 'C07', 'C08', 'C15'), ensures=[('inherit', gck_ens(True))], opts={'verify_only': True}))
+                   props=('C04', 'C07', 'C08', 'C15', 'C19'), ensures=[('inherit', gck_ens(True))], opts={'verify_only': True}))
 
     # ---- _propagate_implicit_values -----------------------------------------------------------
     def piv_req(c):
